@@ -321,7 +321,7 @@ EXTRA = {
         "after every operation decide 'the current value'.",
  "C11": HEADS + " Builtins as inner commands are judged against their own stand-alone output.",
  "C12": HEADS + " Words are also placed in `for` word lists; a brace group and `*` in one word (the group first, each produced word a pattern "
-        "of its own) and ranges whose bounds are next to the 32-bit limits are part of the model.",
+        "of its own), ranges whose bounds are next to the 32-bit limits, quoted braces in assignment values, patterns under a value with , { } and a HOME that changes during the session are covered.",
  "C02": " Stages that are stopped and continued from outside while the pipeline runs have not terminated (controller-stage scenarios); a pipeline that cannot start a stage under a descriptor limit still terminates; a foreground pipeline ended by Ctrl-C reports 130 with the shell polling and with its SIGCHLD handler enabled.",
  "C05": " Seed lines hold numeric bounds next to the machine limits and unterminated references.",
  "C07": " spec/Launch.tla also models who hands the terminal over (only the shell = pinned: negative control) and the shell taking it back; "
@@ -331,11 +331,11 @@ EXTRA = {
  "C14": " Conditions are also lists whose deciding (last executed) command is the programmed one.",
  "C15": " Positional parameters in `for` word lists (script, function, sourced file) and the status of functions / sourced files ending in an "
         "untaken `if` or a finished `while` are directed scenarios.",
- "C16": " Two further entries place the line between other, indented lines of a script / function body.",
+ "C16": " Two further entries place the line between other, indented lines of a script / function body; edge lines (escaped blank / backslash at the end, a single `!`, a first word that only begins with a keyword) are always replayed, prompt lines are typed after a first line.",
  "C17": " Every value is shown by name, listed and used under three kinds of name; aliases are used as the whole command (also names of digits "
         "and dots) at every position.",
  "C18": " One history stores every text and searches every pattern (also patterns with leading / trailing backslashes). Apalache discharges an inductive invariant of the table core for arbitrary integer ids (spec/apalache/HistoryInd.tla).",
- "C19": " Float powers of a negative base with whole exponents beyond 2^31 are checked for the parity of the exponent.",
+ "C19": " Float powers of a negative base with whole exponents beyond 2^31 are checked for the parity of the exponent; integer lines with literals beyond 2^53 must give the exact integer.",
  "C20": " A file inside a completed directory (two completions on one word) is part of the pty layer.",
 }
 for pid, extra in EXTRA.items():
